@@ -499,6 +499,113 @@ func c21(x *Ctx) {
 	}
 	c.Min("C21.sibling-root", 6)
 
+	// ---- clause 1b: a parent-ID field is recognised whatever else the field is used for ------------------------
+	// (in the raw-bytes extractor a string field named in ParentNames clears the root flag on every path of its
+	// map entry – also when the same field is a sampler key field – as the map extractor does)
+	const r1b = "C21.parent-field-always-recognised"
+	if ex1 != nil {
+		var start ssa.Instruction
+		eng.Instrs(ex1, func(in ssa.Instruction) {
+			if cl, ok := in.(*ssa.Call); ok && strings.HasSuffix(eng.CalleeName(cl), "msgp.NextType") {
+				start = in
+			}
+		})
+		pIdx := func(name string) *ssa.Parameter { return param(ex1, name) }
+		tidP, pidP := pIdx("traceIdFieldNames"), pIdx("parentIdFieldNames")
+		if start == nil || tidP == nil || pidP == nil {
+			c.Undecided(r1b, "extractCriticalFieldsFromBytes", x.PosOf(ex1.Pos()), "cannot find the per-entry type probe or the ID-field name parameters")
+		} else if h := loopHeader(start); h == nil {
+			c.Undecided(r1b, "extractCriticalFieldsFromBytes", x.Pos(start), "the entries are not processed in a loop")
+		} else {
+			c.Examined++
+			containsOn := func(v ssa.Value, p *ssa.Parameter) bool {
+				e, ok := v.(*ssa.Extract)
+				if !ok || e.Index != 1 {
+					return false
+				}
+				cl, ok := e.Tuple.(*ssa.Call)
+				return ok && strings.HasSuffix(eng.CalleeName(cl), "sliceContains") && len(cl.Call.Args) == 2 && cl.Call.Args[0] == ssa.Value(p)
+			}
+			isReadStr := func(v ssa.Value, idx int) bool {
+				e, ok := v.(*ssa.Extract)
+				if !ok || e.Index != idx {
+					return false
+				}
+				cl, ok := e.Tuple.(*ssa.Call)
+				return ok && strings.HasSuffix(eng.CalleeName(cl), "msgp.ReadStringBytes")
+			}
+			as := &eng.Assume{Bool: func(v ssa.Value) eng.Tri {
+				if cl, ok := v.(*ssa.Call); ok && eng.CalleeName(cl) == "bytes.HasPrefix" {
+					return eng.False // not a meta.* key
+				}
+				if containsOn(v, tidP) {
+					return eng.False
+				}
+				if containsOn(v, pidP) {
+					return eng.True
+				}
+				if b, ok := v.(*ssa.BinOp); ok {
+					if b.X == start.(ssa.Value) && b.Op == token.EQL {
+						return eng.True // the value is a msgpack string
+					}
+					if isReadStr(b.X, 0) {
+						if k, ok := eng.ConstString(b.Y); ok && k == "" {
+							return triOf(b.Op == token.NEQ) // the parent ID is not empty
+						}
+					}
+				}
+				return eng.Unknown
+			}, Nil: func(v ssa.Value) eng.Tri {
+				if isReadStr(v, 2) {
+					return eng.True
+				}
+				return eng.Unknown
+			}}
+			r := eng.Explore(eng.Query{Fn: ex1, Assume: as, Start: start, TrackPhi: func(*ssa.Phi) bool { return true }, Classify: func(in ssa.Instruction, _ eng.Facts) eng.Event {
+				if cl, ok := eng.IsCall(in, "(*types.nullableBool).Set"); ok {
+					if fr, _, ok := eng.FieldRefOf(eng.Receiver(cl)); ok && rootF(fr) {
+						if k, isK := eng.CallArgs(cl)[0].(*ssa.Const); isK && k.Value != nil && k.Value.String() == "false" {
+							return eng.EvKill
+						}
+					}
+				}
+				if in == h.Instrs[0] {
+					return eng.EvSink
+				}
+				return eng.EvNone
+			}})
+			if len(r.Hits) > 0 {
+				o := c.Violate(r1b, "extractCriticalFieldsFromBytes", x.Pos(start), "a non-empty string field named in ParentNames can be passed over without clearing the root flag (for instance because the field was first taken as a sampler key field): the same event is a root span through this extractor and a child through the map extractor")
+				o.Path = eng.DescribePath(x.P.Pos, r.Hits[0].Path)
+			} else {
+				c.Hold(r1b, "extractCriticalFieldsFromBytes", x.Pos(start), "parent-ID field ⇒ root cleared on every path of the entry")
+			}
+		}
+	}
+
+	// ---- clause 1c: a trace ID that is already known is not replaced by a configured ID field ----------------------
+	const r1c = "C21.trace-id-not-overwritten"
+	tidF := eng.FieldIs("types", "Payload", "MetaTraceID")
+	for _, f := range []*ssa.Function{ex1, ex2} {
+		if f == nil {
+			continue
+		}
+		for _, w := range eng.FieldWrites([]*ssa.Function{f}, tidF) {
+			c.Examined++
+			as := &eng.Assume{Bool: func(v ssa.Value) eng.Tri {
+				if b, ok := v.(*ssa.BinOp); ok && (b.Op == token.EQL || b.Op == token.NEQ) {
+					if k, ok := eng.ConstString(b.Y); ok && k == "" && loadsField(b.X, tidF) {
+						return triOf(b.Op == token.NEQ) // a trace ID is already set
+					}
+				}
+				return eng.Unknown
+			}}
+			r := eng.ReachableSinks(f, as, nil, func(in ssa.Instruction) bool { return in == w.Instr })
+			c.Decide(len(r.Hits) == 0, r1c, BaseName(f)+"/MetaTraceID", x.Pos(w.Instr), "written only while no trace ID is known",
+				"a configured trace-ID field can overwrite a trace ID that is already set (meta.trace_id, which a forwarding peer serialises first): the trace a span belongs to then depends on the order of the fields on the wire")
+		}
+	}
+
 	// ---- clause 2: order independence ---------------------------------------------------------------------
 	const r2 = "C21.id-order-independent"
 	tid := eng.FieldIs("types", "Payload", "MetaTraceID")
